@@ -25,6 +25,7 @@ func init() {
 
 // StateMonitor observes mutual exclusion of state callbacks of one run.
 type StateMonitor struct {
+	perState  sync.Map // *GState -> *int32 (callbacks currently inside)
 	inside    int32
 	Overlaps  int32 // > 0: two callbacks were inside at once (violation)
 	Entered   int32
@@ -58,8 +59,12 @@ func critical(ctx context.Context, st *GState, what string) {
 	if env != nil {
 		mon = env.Mon
 	}
+	var insideCtr *int32
 	if mon != nil {
-		if atomic.AddInt32(&mon.inside, 1) != 1 {
+		// mutual exclusion is per state object (a nested stateful graph has its own state and lock)
+		v, _ := mon.perState.LoadOrStore(st, new(int32))
+		insideCtr = v.(*int32)
+		if atomic.AddInt32(insideCtr, 1) != 1 {
 			atomic.AddInt32(&mon.Overlaps, 1)
 		}
 		atomic.AddInt32(&mon.Entered, 1)
@@ -102,7 +107,7 @@ func critical(ctx context.Context, st *GState, what string) {
 		stateMuOf(env).Unlock()
 	}
 	if mon != nil {
-		atomic.AddInt32(&mon.inside, -1)
+		atomic.AddInt32(insideCtr, -1)
 	}
 }
 
